@@ -90,13 +90,13 @@ NATIVE = ["int", "long", "float", "double"]
 
 # ------------------------------------------------------------------ descriptions
 def mkfn(name, nparams=1, ndefaults=0, suffix=None, dsuffix=(), tinst=(), generics=(), hasBuf=False, isCtor=False,
-         usesT=False):
+         usesT=False, block=None):
     # fortran_generic on a function whose C prototype "order" differs from the generic's (no required parameter,
     # or a second template parameter) makes generic_function add a fortran_generic_c variant: not modelled.
     if nparams - ndefaults == 0 or any(len(t["types"]) > 1 for t in tinst):
         generics = ()
     return dict(name=name, nparams=nparams, ndefaults=ndefaults, suffix=suffix, dsuffix=list(dsuffix),
-                tinst=[dict(t) for t in tinst], generics=list(generics), hasBuf=hasBuf, isCtor=isCtor, usesT=usesT)
+                tinst=[dict(t) for t in tinst], generics=list(generics), hasBuf=hasBuf, isCtor=isCtor, usesT=usesT, block=block)
 
 
 def fn_decl(fn, ov, clsname=None):
@@ -180,6 +180,7 @@ def normalize(prog):
     for c in prog["containers"]:
         for f in c["fns"]:
             f.setdefault("usesT", False)
+            f.setdefault("block", None)
     return prog
 
 
@@ -247,11 +248,37 @@ def program_yaml(prog):
             n = node_for(c["path"])
             clsname = c["path"][-1][1] if c["path"] and c["path"][-1][0] == "cls" else None
         seen = {}
+        cur_block, cur_list = None, n["declarations"]
         for fn in c["fns"]:
             ov = seen.get(fn["name"], 0)
             seen[fn["name"]] = ov + 1
-            n["declarations"].append(fn_yaml(fn, ov, clsname))
+            b = fn.get("block")
+            if b != cur_block:
+                cur_block = b
+                if b is None:
+                    cur_list = n["declarations"]
+                else:
+                    # a `block:` groups declarations under shared options/format; it is transparent to names
+                    blk = {"block": True, "options": {"literalinclude": bool(b % 2)}, "declarations": []}
+                    n["declarations"].append(blk)
+                    cur_list = blk["declarations"]
+            cur_list.append(fn_yaml(fn, ov, clsname))
     return top
+
+
+def with_blocks(prog, mode):
+    """Put runs of the declarations of every scope into `block:` groups (mode picks the split)."""
+    q = normalize(json.loads(json.dumps(prog)))
+    for c in q["containers"]:
+        n = len(c["fns"])
+        for i, f in enumerate(c["fns"]):
+            if mode == 0:
+                f["block"] = 1 if i >= 1 else None
+            elif mode == 1:
+                f["block"] = 1 if i < (n + 1) // 2 else 2
+            else:
+                f["block"] = None if i % 3 == 0 else 1 + (i // 3)
+    return q
 
 
 class _Cfg(object):
@@ -501,6 +528,41 @@ def class_template_programs(thorough, r):
             yield dict(library="tpl", wrap=(True, True, False, False), cprefix=None, containers=conts)
 
 
+def table_programs(thorough, r):
+    """Programs wrapped for all four languages whose overload sets are adjacent, interleaved or split by other
+    declarations, at library level, in classes and in class templates, with and without `block:` groups: the
+    Python / Lua method tables and wrapper definitions depend on the order of the declarations."""
+    orders = [
+        lambda a, b, c: [a(), a(2), b()],
+        lambda a, b, c: [a(), b(), a(2)],
+        lambda a, b, c: [a(), b(), a(2), c(), b(2), a(3)],
+        lambda a, b, c: [b(), a(), c(), a(2)],
+        lambda a, b, c: [a(2, 1), b(), a(3)],
+    ]
+    def mkf(name):
+        return lambda np=1, nd=0: mkfn(name, nparams=np, ndefaults=nd)
+    k = 0
+    for oi, order in enumerate(orders):
+        for shape in range(4):
+            k += 1
+            free = order(mkf("setValue"), mkf("getValue"), mkf("reset"))
+            meth = order(mkf("scale"), mkf("move"), mkf("size"))
+            if shape == 0:
+                conts = [dict(path=[], fns=free)]
+            elif shape == 1:
+                conts = [dict(path=[], fns=free), dict(path=[("cls", "Mesh")], fns=[mkfn("ctor", nparams=0, isCtor=True)] + meth)]
+            elif shape == 2:
+                insts = [dict(explicit=None, types=["int"]), dict(explicit=None, types=["double"])]
+                ms = [mkfn("put", usesT=True)] + meth
+                conts = [tmpl_container([], "Box", insts, i, json.loads(json.dumps(ms))) for i in range(2)]
+            else:
+                conts = [dict(path=[("cls", "Mesh")], fns=meth), dict(path=[("cls", "Grid")], fns=order(mkf("move"), mkf("scale"), mkf("size")))]
+            p = dict(library="tab", wrap=(True, True, True, True), cprefix=None, containers=conts)
+            yield p
+            if thorough or k % 2:
+                yield with_blocks(p, k % 3)
+
+
 def batch_programs(progs, size=20):
     """Put the single-scope programs of a list side by side as namespaces b0..b<n> of one library (the
     per-library start-up cost of Shroud dominates the run time).  Every 10th program is kept as it is."""
@@ -596,6 +658,12 @@ def random_program(r):
                                                                suffix=r.choice([None, None, "_c%d" % k])))
         conts.append(dict(path=p, fns=fns))
     wrap = (r.random() < 0.9, r.random() < 0.9, r.random() < 0.3, r.random() < 0.3)
+    if r.random() < 0.25:
+        for c in conts:
+            for i, f in enumerate(c["fns"]):
+                f["block"] = r.choice([None, 1, 1, 2]) if i else None
+            # blocks group consecutive declarations only
+            c["fns"].sort(key=lambda f: 0) if False else None
     return dict(library=r.choice(["nm", "library", "ab", "Tutorial"]), wrap=wrap,
                 cprefix=r.choice([None, None, None, "XY_", "p", ""]), containers=conts)
 
@@ -625,10 +693,11 @@ def entries_of(fns):
     out = []
     for fn in fns:
         gs = [g if g is not None else "_%d" % j for j, g in enumerate(fn["generics"])]
-        if fn["tinst"] and fn["ndefaults"]:
+        if (fn["tinst"] or fn.get("usesT")) and fn["ndefaults"]:
             # every instantiation gets its default-argument variants, numbered per instantiation
-            for i, t in enumerate(fn["tinst"]):
-                ts = t["explicit"] or (FLAT[t["types"][0]] if len(t["types"]) == 1 else "_%d" % i)
+            # (a member using a class template parameter has the one instantiation of its class)
+            for i, t in enumerate(fn["tinst"] or [None]):
+                ts = "" if t is None else (t["explicit"] or (FLAT[t["types"][0]] if len(t["types"]) == 1 else "_%d" % i))
                 for k in range(fn["ndefaults"] + 1):
                     e = fn["dsuffix"][k] if k < len(fn["dsuffix"]) else fn["suffix"]
                     out.append((e if e is not None else "_%d" % k, ts, gs, fn["hasBuf"], True))
@@ -719,7 +788,8 @@ def in_domain(prog):
             fst.setdefault(module, []).append((fscope + u).lower())
             expl = []
             for fn in fns:
-                if fn.get("usesT") and (fn["ndefaults"] or len(fns) > 1 or fn["generics"] or fn["hasBuf"]):
+                if fn.get("usesT") and (len(fns) > 1 or fn["generics"] or fn["hasBuf"] or
+                                        (fn["ndefaults"] and (fn["suffix"] is not None or 0 < len(fn["dsuffix"]) <= fn["ndefaults"]))):
                     return False
                 if fn["tinst"]:
                     if len(fns) > 1 or (fn["ndefaults"] and (fn["suffix"] is not None or
@@ -884,6 +954,16 @@ def scan_outputs(files, prefix):
                 if mname not in procs:
                     problems.append(("f-generic-member-missing", "generic interface %s lists %s which is not a module procedure of %s" % (k, mname, fn)))
         ftab[fn] = (procs, binds, ifaces)
+    for fn, data in files.items():
+        text = data.decode()
+        defs = []
+        if fn.startswith("lua") and fn.endswith((".cpp", ".c")):
+            defs = re.findall(r"^static int (\w+)\(lua_State", text, re.M)
+        elif fn.startswith("py") and fn.endswith((".cpp", ".c")):
+            defs = re.findall(r"^(\w+)\($", text, re.M)
+        d = sorted({k for k in defs if defs.count(k) > 1})
+        if d:
+            problems.append(("dup-wrapper-definition", "wrapper functions defined more than once in %s: %s" % (fn, ", ".join(d))))
     for fn, data in files.items():
         for tname, keys in method_tables(fn, data.decode()).items():
             d = sorted({k for k in keys if keys.count(k) > 1})
@@ -1155,11 +1235,13 @@ def distribution(progs):
             "with_template": 0, "with_generics": 0, "with_bufferify": 0, "with_ctor": 0, "overload_sets>=2": 0,
             "explicit_suffix": 0, "modules_with>=2_classes": 0, "method_name_shared_by_classes": 0,
             "shared_method_overloaded_in_some_single_in_others": 0,
-            "class_template_instantiations": 0, "members_using_template_parameter": 0}
+            "class_template_instantiations": 0, "members_using_template_parameter": 0,
+            "scopes_with_block_groups": 0, "non_adjacent_overload_sets": 0, "wrapped_for_python_or_lua": 0}
     for p in progs:
         dist["containers"] += len(p["containers"])
         if p.get("cprefix") is not None:
             dist["explicit_C_prefix"] += 1
+        dist["wrapped_for_python_or_lua"] += bool(p["wrap"][2] or p["wrap"][3])
         names = {}
         for c in p["containers"]:
             path = c["path"]
@@ -1169,6 +1251,11 @@ def distribution(progs):
             dist["depth>=3"] += nsdepth >= 3
             dist["class_in_namespace"] += bool(path) and path[-1][0] == "cls" and nsdepth >= 1
             dist["class_template_instantiations"] += bool(c.get("tmpl"))
+            dist["scopes_with_block_groups"] += any(f.get("block") is not None for f in c["fns"])
+            pos = {}
+            for i, f in enumerate(c["fns"]):
+                pos.setdefault(f["name"], []).append(i)
+            dist["non_adjacent_overload_sets"] += sum(1 for v in pos.values() if len(v) > 1 and v[-1] - v[0] + 1 > len(v))
             dist["members_using_template_parameter"] += sum(1 for f in c["fns"] if f.get("usesT"))
             seen = {}
             for f in c["fns"]:
@@ -1284,6 +1371,10 @@ def run(ctx):
     progs.extend(scope_programs(thorough, r))
     progs.extend(class_programs(thorough, r))
     progs.extend(class_template_programs(thorough, r))
+    blocked = [with_blocks(p, i % 3) for i, p in enumerate(progs[ncorpus:]) if i % (2 if thorough else 4) == 0]
+    progs.extend(blocked)
+    tables = list(table_programs(thorough, r))
+    progs.extend(tables)
     nscope = len(progs) - ncorpus
     progs.extend(exhaustive_programs(thorough, r))
     nexh = len(progs) - ncorpus - nscope
@@ -1375,7 +1466,10 @@ def run(ctx):
     plain = [p for p in cand if not (len(p["containers"]) > 1 or p["containers"][0]["path"])]
     nfull = (300 if thorough else 22) * (3 if ctx.broken else 1)
     tmplc = [p for p in cand if any(c.get("tmpl") for c in p["containers"])]
+    tabs = [p for p in tables if in_domain(p)]
+    blk = [p for p in blocked if in_domain(p) and any(c.get("tmpl") for c in p["containers"])]
     pick = ([p for p in progs[:ncorpus] if in_domain(p)] + tmplc[:: max(1, len(tmplc) // (18 if thorough else 5))] +
+            tabs[:: (1 if thorough else 2)] + blk[:: max(1, len(blk) // (12 if thorough else 4))] +
             scoped[:: max(1, len(scoped) // nfull)][:nfull] + plain[:: max(1, len(plain) // nfull)][:nfull])
     # make sure the scanners see Python and Lua tables as well
     extra = []
@@ -1396,7 +1490,12 @@ def run(ctx):
                 break
     # template + default arguments (repaired in /repo 22341aa): (d+1) x t entry points with documented names
     oracle_full(ctx, root_prog([mkfn("tmpl", nparams=3, ndefaults=2, tinst=TK[2])]), "full")
-    ctx.note("full_generations", len(pick) + len(extra) + 1)
+    # class-template member with default arguments (repaired in /repo 8609034)
+    insts2 = [dict(explicit=None, types=["int"]), dict(explicit=None, types=["double"])]
+    oracle_full(ctx, dict(library="nm", wrap=(True, True, False, False), cprefix=None, containers=[
+        tmpl_container([], "vec", insts2, i, [mkfn("fill", nparams=3, ndefaults=2, usesT=True), mkfn("push", usesT=True)])
+        for i in range(2)]), "full")
+    ctx.note("full_generations", len(pick) + len(extra) + 2)
     if drv.available() and ok:
         gi_correspondence(ctx, drv)
         mt_correspondence(ctx, drv)
